@@ -290,7 +290,9 @@ func vCompatible(kind, t int) bool {
 
 // providers: k instances with symbolic type; at most one unnamed instance per type
 // (two unnamed components of one type share a default name and cannot both be registered).
-func vProviders(k int, withQ bool) ([]any, []int) { return vProvidersOf(k, withQ, []int{tPA, tPB, tPC, tPP}) }
+func vProviders(k int, withQ bool) ([]any, []int) {
+	return vProvidersOf(k, withQ, []int{tPA, tPB, tPC, tPP})
+}
 
 func vProvidersOf(k int, withQ bool, types []int) ([]any, []int) {
 	var ps []any
